@@ -49,9 +49,10 @@ ASSUMPTIONS = [
 
 COMPS = ['a', 'b', 'ab', 'cd', 'xy', 'x', 'src', 'lib', 'a.b', '..x', 'x..',
          '...', 'ab.cd', 'long_name', 'é', 'a b', '1', '12', 'v1..', 'v1PAR',
-         'PARa', 'x.']
+         'PARa', 'x.', 'a_b', 'x#y', 'x_y', 'p%q', 'p_q']
 STEMS = ['x', 'y', 'main', 'a', 'ab', 'util.v1', 'util.v2', 'x.tab', '..',
-         'a b', 'y..', 'yPAR', 'l' * 201 + '_v1', 'l' * 201 + '_v2']
+         'a b', 'y..', 'yPAR', 'l' * 201 + '_v1', 'l' * 201 + '_v2', 'a_b',
+         'cpu%', 'cpu_']
 EXTS = ['.c', '.c', '.c', '.cpp', '.cc']
 
 
@@ -165,6 +166,8 @@ def e2e_cases(draw):
             s['up'] = depth + 1
         if s['ext'] not in ('.c', '.cpp', '.cc'):
             s['ext'] = '.cpp'
+        if draw(st.integers(0, 7)) == 0:
+            s['ext'] = '.l'     # a second language: lex scanners
         srcs.append(s)
     if draw(st.integers(0, 4)) == 0:
         # force a same-stem different-extension pair
@@ -204,6 +207,8 @@ def render_project(root, case):
         body = 'int f{}(void) {{ return {}; }}\n'.format(i, i)
         if p.endswith(('.cpp', '.cc')):
             body = 'extern "C" ' + body
+        if p.endswith('.l'):
+            body = '%%\n%%\n'
         files[p] = body
     mainsrc = posixpath.join(sub, 'vf_main_entry.c')
     files[mainsrc] = 'int main(void) { return 0; }\n'
@@ -282,8 +287,11 @@ def expected_collision(case, uniq, rel):
         if shared_dir and set(a) & set(b):
             return True
     for g in groups:
+        # (a lex source becomes <stem>.yy.c, so it only clashes with other
+        # lex sources or with a source literally called <stem>.yy.*)
         stems = [posixpath.splitext(posixpath.normpath(
-            posixpath.join(sub or '.', r)))[0] for r in g]
+            posixpath.join(sub or '.', r)))[0] +
+            ('.yy' if r.endswith('.l') else '') for r in g]
         if len(set(stems)) < len(stems):
             return True
     # copies into one directory with equal basenames
@@ -310,7 +318,8 @@ def prop_e2e(rec):
             bld = os.path.join(tmp, 'bld')
             uniq, rel = render_project(src, case)
             clock = sandbox.Clock(tmp)
-            env = sandbox.base_env(os.path.join(tmp, 'home'))
+            env = sandbox.base_env(os.path.join(tmp, 'home'), extra={
+                'LEX': os.path.join(sandbox.STUBBIN, 'lex')})
             before = sandbox.snapshot(src, content=True)
             r = sandbox.configure(src, bld, env, backend=backend)
             collide = expected_collision(case, uniq, rel)
